@@ -207,3 +207,49 @@ func TestFactEngine(t *testing.T) {
 }
 
 var _ = token.NoPos
+
+const litCopy = `package snippet
+type info struct{ UID string }
+type rec struct{ Info *info }
+type req struct{ UID, Name string }
+func mark() {}
+func use(*req) {}
+func viaStore(p *info, old rec) {
+	c := &req{UID: p.UID}
+	if old.Info != nil && old.Info.UID != "" {
+		c.UID = old.Info.UID
+	}
+	mark()
+	use(c)
+}
+func viaTemp(p *info, old rec) {
+	var u string
+	if old.Info != nil && old.Info.UID != "" {
+		u = old.Info.UID
+	} else {
+		u = p.UID
+	}
+	c := &req{Name: "x", UID: u}
+	mark()
+	use(c)
+}
+func viaTempWrong(p *info, old rec) {
+	var u string
+	if old.Info != nil {
+		u = p.UID
+	} else {
+		u = old.Info.UID
+	}
+	c := &req{Name: "x", UID: u}
+	mark()
+	use(c)
+}`
+
+func init() {
+	const r = `old.Info == nil || old.Info.UID == "" || c.UID == old.Info.UID`
+	engCases = append(engCases,
+		engCase{"lit-copy-store", litCopy, "viaStore", r, true},
+		engCase{"lit-copy-temp", litCopy, "viaTemp", r, true},
+		engCase{"lit-copy-temp-wrong", litCopy, "viaTempWrong", r, false},
+	)
+}
